@@ -9,7 +9,10 @@ use serde_json::{json, Value};
 use starknet_crypto::Felt;
 use swiftness_stark::types::StarkProof;
 
-pub struct Subject { pub id: String, pub layout: String, pub proof: Value, pub sb: Felt, pub size: usize }
+pub struct Subject { pub id: String, pub layout: String, pub proof: Value, pub sb: Felt, pub size: usize,
+                     /// a shipped proof of another hash / Stone build: this binary cannot verify it, but configuration and public-input
+                     /// validation do not depend on the build
+                     pub pi_only: bool }
 
 fn verify_subject(layout: &str, proof: &StarkProof, sb: Felt, fuel: Option<u64>) -> (Verdict, u64) {
     if layout == "toy" { let (v, _, u) = crate::cmd_stark::verify_toy(proof, sb, fuel, false); (v, u) }
@@ -26,7 +29,7 @@ pub fn subjects(n_toy: u64, with_real: bool, rng: &mut Rng) -> Vec<Subject> {
         let v = serde_json::to_value(&pr.proof).unwrap();
         let mut leaves = Vec::new(); let mut arrays = Vec::new();
         walk(&v, &mut Vec::new(), &mut leaves, &mut arrays);
-        Subject { id: format!("toy{i}:{params:?}"), layout: "toy".into(), proof: v, sb: pr.security_bits, size: leaves.len() }
+        Subject { id: format!("toy{i}:{params:?}"), layout: "toy".into(), proof: v, sb: pr.security_bits, size: leaves.len(), pi_only: false }
     });
     if with_real {
         let build = crate::build_info();
@@ -37,7 +40,7 @@ pub fn subjects(n_toy: u64, with_real: bool, rng: &mut Rng) -> Vec<Subject> {
                 let v = serde_json::to_value(&p).unwrap();
                 let mut leaves = Vec::new(); let mut arrays = Vec::new();
                 walk(&v, &mut Vec::new(), &mut leaves, &mut arrays);
-                out.push(Subject { id: f.path.clone(), layout: f.layout.clone(), proof: v, sb, size: leaves.len() });
+                out.push(Subject { id: f.path.clone(), layout: f.layout.clone(), proof: v, sb, size: leaves.len(), pi_only: false });
             }
         }
         if build == "keccak_160_lsb-stone5" {
@@ -45,7 +48,7 @@ pub fn subjects(n_toy: u64, with_real: bool, rng: &mut Rng) -> Vec<Subject> {
             let v = serde_json::to_value(&p).unwrap();
             let mut leaves = Vec::new(); let mut arrays = Vec::new();
             walk(&v, &mut Vec::new(), &mut leaves, &mut arrays);
-            out.push(Subject { id: "fixture".into(), layout: "recursive".into(), proof: v, sb: Felt::from_hex_unchecked("0x32"), size: leaves.len() });
+            out.push(Subject { id: "fixture".into(), layout: "recursive".into(), proof: v, sb: Felt::from_hex_unchecked("0x32"), size: leaves.len(), pi_only: false });
         }
     }
     out
@@ -323,7 +326,7 @@ pub fn recipes(subs: &[Subject], rng: &mut Rng, numbers_everywhere: bool) -> Vec
         // a tiny trace declared consistently (trace 2^k rows, one inner FRI layer, builtin segments emptied): the public memory no
         // longer fits its column
         if n_inner >= 1 && nseg_early > 3 {
-            for k in [4u64, 6, 8] {
+            for k in [4u64, 6, 8, 10] {
                 let lc = felt_at(&cfg(&["log_n_cosets"]));
                 let kf = Felt::from(k);
                 let step = 2u64.min(k);
@@ -424,12 +427,31 @@ pub fn run_malformed(args: &[String]) {
     let with_real = args[3] == "yes";
     let full = args[4] == "1";
     let mut rng = Rng::from_env(0xC18);
-    let subs = subjects(n_toy, with_real, &mut rng);
-    let recs = recipes(&subs, &mut rng, full);
+    let mut subs = subjects(n_toy, with_real, &mut rng);
+    if with_real {
+        // one shipped proof per layout that this build cannot verify (e.g. the dynamic layout exists only under Stone 6): its
+        // configuration / public input still drive the validation entry points taken alone
+        let build = crate::build_info();
+        let have: std::collections::BTreeSet<String> = subs.iter().map(|s| s.layout.clone()).collect();
+        let mut added = std::collections::BTreeSet::new();
+        for f in real::list_proofs() {
+            if format!("{}-{}", f.hash, f.stone) == build || have.contains(&f.layout) || !added.insert(f.layout.clone()) { continue; }
+            if let Ok(p) = real::load(&f.text) {
+                let sb = p.config.security_bits();
+                let v = serde_json::to_value(&p).unwrap();
+                let mut leaves = Vec::new(); let mut arrays = Vec::new();
+                walk(&v, &mut Vec::new(), &mut leaves, &mut arrays);
+                subs.push(Subject { id: f.path.clone(), layout: f.layout.clone(), proof: v, sb, size: leaves.len(), pi_only: true });
+            }
+        }
+    }
+    let mut recs = recipes(&subs, &mut rng, full);
+    recs.retain(|r| !subs[r.subj].pi_only || r.edits.iter().all(|(p, _)| { let ps = path_str(p); ps.starts_with("config") || ps.starts_with("public_input") }));
     // per-subject budget for C17: events of the honest run, and K * (number of leaves)
     let mut honest_mem: Vec<(u64, u64)> = Vec::new();
     let budgets: Vec<(u64, u64)> = subs.iter().map(|s| {
         let p: StarkProof = serde_json::from_value(s.proof.clone()).unwrap();
+        if s.pi_only { honest_mem.push((0, 0)); return (0, 40 * s.size as u64 + 2000); }
         let ((_, used), peak, maxreq) = metered(|| verify_subject(&s.layout, &p, s.sb, None));
         honest_mem.push((peak, maxreq));
         (used, 40 * s.size as u64 + 2000)
@@ -445,7 +467,8 @@ pub fn run_malformed(args: &[String]) {
         walk(&v, &mut Vec::new(), &mut leaves, &mut arrays);
         let budget = 40 * leaves.len() as u64 + 2000;
         let t0 = std::time::Instant::now();
-        let ((verdict, used), peak, maxreq) = metered(|| verify_subject(&s.layout, &p, s.sb, Some(if mode == "c17" { budget } else { 3_000_000 })));
+        let ((verdict, used), peak, maxreq) = if s.pi_only { ((Verdict::Reject("not verified by this build".into()), 0), 0, 0) }
+            else { metered(|| verify_subject(&s.layout, &p, s.sb, Some(if mode == "c17" { budget } else { 3_000_000 }))) };
         let ms = t0.elapsed().as_millis() as u64;
         // the validation entry points taken alone (C18: must not panic; C17: must not allocate in proportion to a declared number)
         let (alone, apeak, amaxreq) = metered(|| pi_alone(&s.layout, &p));
